@@ -97,8 +97,9 @@ def check_config(ctx, clock, fs_only):
     sat = None
     if inc:
         for l in inc[0].guard:
-            if isinstance(l.e, E) and l.e.op == '<' and l.pos and l.e.args[0].canon() == counter \
-                    and l.e.args[1].op == 'const':
+            # `counter < K` (also written ~(counter >= K), counter <= K-1): the literal is (counter >= K) negated
+            if isinstance(l.e, E) and ((l.e.op == '<' and l.pos) or (l.e.op == '>=' and not l.pos)) and \
+                    l.e.args[0].canon() == counter and l.e.args[1].op == 'const':
                 sat = l.e.args[1].val
     ctx.ob('C05.counter-saturate', 'USBInterpacketTimer.counter.inc[%s]' % tag,
            ok_inc and sat is not None and mx < sat + 1 <= hi - 1 + 1 and sat < hi, inc[0].loc if inc else None,
